@@ -38,20 +38,23 @@ def concretise(a, canonical=False):
     enc = ENC[a['encoding']]
     if enc is not None:
         kw['encoding'] = enc.lower() if canonical else enc
+    if a.get('count', 'none') != 'none':
+        kw['symbol_count'] = {'two': 2, 'sixteen': 16, 'zero': 0, 'seventeen': 17}[a['count']]
     return call(a['api'], CONTENT[a['content']], **kw)
 
 
 def _observe(vec):
     a = vec['args']
     c = concretise(a)
-    outcome, res, _ = symobs.execute(c, time_limit=60)
+    outcome, res, seq = symobs.execute(c, time_limit=60)
+    mat = res['matrix'] if res else ([s['matrix'] for s in seq] if seq else [])
     o = {'_call': c, 'a': a, 'outcome': {'status': outcome['status'], 'exc': outcome.get('exc', ''), 'mro': outcome.get('mro', []),
                                         'msg': outcome.get('msg', '')},
-         'matrix': res['matrix'] if res else [], 'canon': {'status': 'none', 'matrix': []}, '_res': res}
+         'matrix': mat, 'canon': {'status': 'none', 'matrix': []}, '_res': res, '_seq': seq}
     cc = concretise(a, canonical=True)
     if cc != c and outcome['status'] == 'ok':
-        o2, r2, _ = symobs.execute(cc, time_limit=60)
-        o['canon'] = {'status': o2['status'], 'matrix': r2['matrix'] if r2 else []}
+        o2, r2, s2 = symobs.execute(cc, time_limit=60)
+        o['canon'] = {'status': o2['status'], 'matrix': r2['matrix'] if r2 else ([s['matrix'] for s in s2] if s2 else [])}
         o['_canon_call'] = cc
     return o
 
@@ -85,9 +88,14 @@ def run_factory_part(rep, tier):
     sobs = []
     for o in accepted:
         c = o['_call']
-        so = {'_call': c, 'props': ['C01', 'C02', 'C03'], 'outcome': {'status': 'ok'},
-              'exp': symobs.expectation(symobs.dec_content(c['content']), c['kw']), 'res': o['_res'], '_cost': len(o['matrix']) ** 2}
-        sobs.append(so)
+        if o['_res'] is not None:
+            so = {'_call': c, 'props': ['C01', 'C02', 'C03'], 'outcome': {'status': 'ok'},
+                  'exp': symobs.expectation(symobs.dec_content(c['content']), c['kw']), 'res': o['_res'], '_cost': len(o['matrix']) ** 2}
+            sobs.append(so)
+        else:
+            for sres in (o['_seq'] or []):      # symbols of a sequence: geometry and Reed-Solomon clauses (the payload is C08's business)
+                sobs.append({'_call': c, 'props': ['C02', 'C03'], 'outcome': {'status': 'ok'},
+                             'exp': symobs.expectation(symobs.dec_content(c['content']), c['kw']), 'res': sres, '_cost': len(sres['matrix']) ** 2})
     engine.judge_symbols(rep, sobs, {'C01', 'C02', 'C03'}, None, None)
     return obs
 
